@@ -15,7 +15,7 @@
    The full statement (every constructor) stays visible as C02_compile_correct_statement; as it stands it is
    REFUTED by the recorded defect while-body-stack-leak (C02_compile_correct_statement_refuted). *)
 From Coq Require Import String NArith ZArith List Bool.
-From DS Require Import Model.Str Model.PCG Model.Value Model.VM Model.Ast Model.Denote Model.Compile Proofs.CompileProofs.
+From DS Require Import Model.Str Model.PCG Model.Value Model.VM Model.Ast Model.Denote Model.Compile Proofs.CompileProofs Proofs.CompileArrays.
 Import ListNotations.
 Open Scope Z_scope.
 
@@ -57,6 +57,47 @@ Theorem C02_compile_correct_partial :
     | DOutOfFuel | DUnsup _ => True
     end.
 Proof. exact compile_correct_core. Qed.
+
+(* ---- arrays and indexing: the relation between definitional values and VM values goes through the heap
+   (arel h : an array value corresponds to an allocated array whose elements correspond), environments likewise (erel);
+   the relation is stable under heap growth and re-established by every conclusion, so the statement composes over
+   histories.  Every expression except dice terms: array literals, indexing, all 16 binary operators on arbitrary related
+   values (array + array, array * int, structural ==, ...), with if / else and sequences. *)
+Theorem C02_compile_correct_arrays : forall p, arr_stmt p -> asneed p <= 999 -> bneed p <= 20 ->
+  forall cfg ftab fuel env src st,
+    cfg_op_limit cfg = 0 -> erel (vs_heap st) env (vars_of_state st) ->
+    match denote fuel cfg p env with
+    | DVal v env' =>
+      exists fuel' st' vv, run fuel' {| e_ftab := ftab; e_cfg := cfg |} (compile p) src st = Val vv st'
+                           /\ arel (vs_heap st') v vv /\ erel (vs_heap st') env' (vars_of_state st')
+                           /\ vs_attrs st' = vs_attrs st /\ heap_le (vs_heap st) (vs_heap st')
+    | DErr c env' =>
+      exists fuel' st', run fuel' {| e_ftab := ftab; e_cfg := cfg |} (compile p) src st = Err c st'
+                        /\ erel (vs_heap st') env' (vars_of_state st')
+    | DOutOfFuel | DUnsup _ => True
+    end.
+Proof. exact compile_correct_arrays. Qed.
+
+(* ---- loops: every statement of Model/Ast.v (while / break / continue at any nesting of ifs), every expression except
+   dice terms, under an explicit stack-room hypothesis: a loop body leaves one operand-stack slot per value-producing
+   statement per iteration in the implementation (the recorded finding while-body-stack-leak), the definition's own fuel
+   bounds the iterations, and `wneed fuel p <= 999` says the 1000-slot stack suffices.  Without that hypothesis the
+   statement is false (C02_compile_correct_statement_refuted below); with it the compiled loop computes the definition's
+   value.  Example (Proofs/CompileArrays.v count_900_run): a 900-iteration counter is PROVED to return 900. *)
+Theorem C02_compile_correct_loops : forall p fuel, loop_stmt p -> wneed (Z.of_nat fuel) p <= 999 -> wbneed p <= 20 ->
+  forall cfg ftab env src st,
+    cfg_op_limit cfg = 0 -> erel (vs_heap st) env (vars_of_state st) ->
+    match denote fuel cfg p env with
+    | DVal v env' =>
+      exists fuel' st' vv, run fuel' {| e_ftab := ftab; e_cfg := cfg |} (compile p) src st = Val vv st'
+                           /\ arel (vs_heap st') v vv /\ erel (vs_heap st') env' (vars_of_state st')
+                           /\ vs_attrs st' = vs_attrs st /\ heap_le (vs_heap st) (vs_heap st')
+    | DErr c env' =>
+      exists fuel' st', run fuel' {| e_ftab := ftab; e_cfg := cfg |} (compile p) src st = Err c st'
+                        /\ erel (vs_heap st') env' (vars_of_state st')
+    | DOutOfFuel | DUnsup _ => True
+    end.
+Proof. exact compile_correct_loops. Qed.
 
 (* ---- the full statement, every constructor of Model/Ast.v *)
 Definition C02_compile_correct_statement : Prop := compile_correct_statement.
@@ -134,3 +175,5 @@ Proof. exact example_core_error. Qed.
 Example C02_printer_choices :
   print (mk_ws 1) example_core <> print (mk_ws 2) example_core.
 Proof. vm_compute. discriminate. Qed.
+Print Assumptions C02_compile_correct_arrays.
+Print Assumptions C02_compile_correct_loops.
